@@ -51,6 +51,8 @@ type scenario struct {
 	// the cleanup callback blocks; the harness lets it go on at once, except in a set that has already
 	// finished while another set is still undecided (its worker is then still busy when the other set fails)
 	SlowCleanup bool `json:"slow_cleanup"`
+	// the first result arrives part-way into the first hedging delay
+	SplitDelay bool `json:"split_delay"`
 }
 
 func (s scenario) String() string {
@@ -525,12 +527,33 @@ func execute(t *testing.T, sc scenario) (res result) {
 			}
 		}
 		step := 0
+		splitPending := false
 		for !overall.done && res.failure == "" {
+			if sc.SplitDelay && sc.Hedge && step == 0 && !sc.HedgeTicks[-1] && sc.HedgeTicks[0] {
+				// the first result arrives 6 s into the 10 s hedging delay; the delay counts from the start, so
+				// held-back requests still go out at 10 s
+				time.Sleep(hedgeDelay * 6 / 10)
+				vx.Wait()
+				splitPending = true
+			}
 			if sc.HedgeTicks[step-1] && sc.Hedge {
 				before := started()
-				time.Sleep(hedgeDelay)
+				wait := hedgeDelay
+				if splitPending && step == 1 {
+					wait = hedgeDelay * 4 / 10
+				}
+				time.Sleep(wait)
 				vx.Wait()
 				after := started()
+				if splitPending && step == 1 {
+					splitPending = false
+					for _, m := range models {
+						if !m.done && startedIn(m, before) < m.n && startedIn(m, after) == startedIn(m, before) {
+							fail("step %d: a result arrived 6 s into the 10 s hedging delay; at 10 s nothing more was released although %d of %d instances were still held back", step, m.n-startedIn(m, before), m.n)
+						}
+					}
+					res.nontrivial = true
+				}
 				for _, m := range models {
 					d := startedIn(m, after) - startedIn(m, before)
 					if !m.zoneMode && d > 1 {
@@ -1040,6 +1063,7 @@ func genScenarioOf(rt *rapid.T, variant string) scenario {
 		sc.Minimize = rapid.Bool().Draw(rt, "minimize")
 		sc.Hedge = sc.Minimize && rapid.Bool().Draw(rt, "hedge")
 		sc.Sorter = rapid.Bool().Draw(rt, "sorter")
+		sc.SplitDelay = sc.Hedge && rapid.Bool().Draw(rt, "splitDelay")
 		sc.SlowCleanup = rapid.Bool().Draw(rt, "slowCleanup") || (variant == "multi" && rapid.Bool().Draw(rt, "slowCleanup2"))
 	}
 	for i := 0; i < total; i++ {
@@ -1065,6 +1089,9 @@ func genScenarioOf(rt *rapid.T, variant string) scenario {
 				sc.HedgeTicks[s] = true
 			}
 		}
+	}
+	if sc.SplitDelay {
+		sc.HedgeTicks[-1], sc.HedgeTicks[0] = false, true
 	}
 	return sc
 }
